@@ -234,6 +234,11 @@ impl Replayer {
             Outcome::Panic(m) => {
                 return Err(fail(&st.ctx, "panic", format!("panic:{}:{}", op, panic_site(m)), format!("{} panicked: {}", op, m)));
             }
+            // two entry points of the library that answer one question differently: a finding, not a tool error
+            Outcome::Unsupported(m) if m.starts_with("#variant:") => {
+                let name = m[9..].split('#').next().unwrap_or("").to_string();
+                return Err(fail(&st.ctx, "variant", format!("variant:{}:{}", op, name), m.clone()));
+            }
             Outcome::Unsupported(m) => return Err(fail(&st.ctx, "tool", format!("tool:{}", op), m.clone())),
             _ => {}
         }
